@@ -53,6 +53,13 @@ pub fn grid() -> Vec<Point> {
     add("seed", "a32049da0ffde0ded92ce10a0230d35fe615ec8461c14986baa63fe3b3bac3db00", false);
     add("seed", "zz2049da0ffde0ded92ce10a0230d35fe615ec8461c14986baa63fe3b3bac3db", false);
     add("seed", "", false);
+    // seeds whose hex digits read as a YAML number when written bare (as the README writes seeds):
+    // the file source may refuse them (YAML hands the server a number, not a string) but must
+    // never run with another value; from the environment they are ordinary seeds
+    add("seed_bare", "1111111111111111111111111111111111111111111111111111111111111111", true);
+    add("seed_bare", "9876543210987654321098765432109876543210987654321098765432109876", true);
+    add("seed_bare", "12345678901234567890e2345678901234567890123456789012345678901234", true);
+    add("seed_bare", "0000000000000000000000000000000000000000000000000000000000000042", true);
     // missing required settings and an unknown key
     add("missing", "port", false);
     add("missing", "interface", false);
@@ -123,6 +130,10 @@ fn gen(seed: u64, idx: u64, _tier: Tier) -> Plan {
         "fault_percentage_bg" => {}
         "interface" => s.interface = pt.value.clone(),
         "seed" => s.seed_hex = pt.value.clone(),
+        "seed_bare" => {
+            s.seed_hex = pt.value.clone();
+            s.seed_written = Some(pt.value.clone());
+        }
         "missing" => s.omit.push(pt.value.clone()),
         "unknown" => s.extra.push((if source == ConfigSource::File { pt.value.clone() } else { format!("ROUGHENOUGH_{}", pt.value.to_uppercase()) }, "1".into())),
         _ => unreachable!(),
@@ -159,6 +170,10 @@ fn check(plan: &Plan, out: &RunOut) -> CheckOut {
     // environment: the statement speaks of unknown keys in the file only
     if pt.key == "unknown" && src == "env" {
         co.probe("unknown_env_var_not_judged");
+        return co;
+    }
+    if pt.key == "seed_bare" && src == "file" && refused {
+        co.probe("bare_numeric_seed_refused");
         return co;
     }
     match &pt.expect {
@@ -261,7 +276,7 @@ fn check(plan: &Plan, out: &RunOut) -> CheckOut {
                         differs("reporter thread started", b.reporter_task.to_string());
                     }
                 }
-                "seed" => {
+                "seed" | "seed_bare" => {
                     let pk = r::hex_lower(&r::pubkey_from_seed(&crate::exec::hex_decode(want).unwrap()));
                     if logged_one(&b, "Long-term public key") != Some(pk.as_str()) {
                         differs("announced public key", format!("{:?}", logged_one(&b, "Long-term public key")));
